@@ -201,7 +201,9 @@ func genRegressionStreams(rng *vh.Rng, n int, emit func(id string, sel int, in [
 	emitPreempt("preempt-witness-closed", []int64{0, 4, 0, 2, 0, 1, 0, 1})
 	for k := int64(1); k <= 3; k++ {
 		emitEnqueue(fmt.Sprintf("enqueue-witness-%d", k), enqueueWitness(k))
+		emitEnqueue(fmt.Sprintf("enqueue-gated-witness-%d", k), enqueueGatedWitness(k))
 	}
+	emitEnqueue("enqueue-closed-children-witness", enqueueClosedChildrenWitness())
 	// allocate with a failing allocate callback ahead of the queue plugin: non-trivial when queue 1
 	// asks for more than it may have (directed half of the stream)
 	emitFault := func(id string, in []int64) {
